@@ -116,3 +116,43 @@ def cone_product_rule(rule, w, mn, q):
                            "G is multiplied with %s instead of misc.sgemv: for 's' blocks in 'L' storage the product with the strictly upper "
                            "triangular entries is lost (G'z) or spurious" % nm, "misc.sgemv(G, .., dims, ..)", pf.norm_expr(c)[:70])
     return n
+
+
+def alias_resolved_assigns(fn, within_top_level_only=False):
+    """{target text: value text} of the assignments of fn, with local names that are bound exactly
+    once to a plain reference (`ineq = inequalities[0]`) replaced by what they stand for - so that
+    `ineq.multiplier.value = sol['z']` reads `inequalities[0].multiplier.value = sol['z']`."""
+    import ast as _ast
+    from . import pyfront as _pf
+    cnt, val = {}, {}
+    for s in _pf.stmts_of(fn):
+        if isinstance(s, _ast.Assign):
+            for t in s.targets:
+                for x in ([t] if not isinstance(t, _ast.Tuple) else t.elts):
+                    if isinstance(x, _ast.Name):
+                        cnt[x.id] = cnt.get(x.id, 0) + 1
+                        if len(s.targets) == 1 and not isinstance(t, _ast.Tuple):
+                            val[x.id] = s.value
+        elif isinstance(s, (_ast.AugAssign, _ast.For)):
+            for x in _pf.stores_in([s]):
+                cnt[x] = cnt.get(x, 0) + 2
+    alias = {k: _pf.norm_expr(v) for k, v in val.items() if cnt.get(k) == 1 and isinstance(v, (_ast.Subscript, _ast.Attribute, _ast.Name))
+             and not any(isinstance(y, _ast.Call) for y in _ast.walk(v))}
+
+    import re as _re
+
+    def res_text(t):
+        """replace the leading name of a reference text by what it stands for, repeatedly"""
+        for _ in range(6):
+            m_ = _re.match(r"[A-Za-z_]\w*", t)
+            if not m_ or m_.group(0) not in alias or alias[m_.group(0)] == m_.group(0):
+                break
+            t = alias[m_.group(0)] + t[m_.end():]
+        return t
+    out = {}
+    body = fn.body if within_top_level_only else list(_ast.walk(fn))
+    for s in body:
+        if isinstance(s, _ast.Assign) and len(s.targets) == 1:
+            out[res_text(_pf.norm_expr(s.targets[0]))] = _pf.norm_expr(s.value)
+    out["__resolve__"] = res_text
+    return out
